@@ -226,7 +226,8 @@ impl Monitor for C19 {
                                 );
                                 // envelope S8: integer Newton with n successive floor divisions per
                                 // step stops within a few units of the root, not within two
-                                if diff <= BigUint::from(32u32) {
+                                // a few dozen units, or 10^-18 of the invariant for huge pools
+                                if diff <= BigUint::from(64u32) + &lo / BigUint::from(10u64).pow(18) {
                                     v.finding = Some("S8-mint-d-accuracy".into());
                                     v.truncate = false;
                                 }
